@@ -1,6 +1,7 @@
 package main
 
 import (
+	"time"
 	"fmt"
 	"go/types"
 	"os"
@@ -25,6 +26,8 @@ type harnessCtx struct {
 	target   *ssa.Function
 	modifies []modClause
 	holeDone bool
+	entrySeq uint64 // allocation counter when the hole was reached
+	pending  []*Term // definitions of the Boolean guards of conditional pins (assumed at the call site)
 	holeBlock *ssa.BasicBlock
 	holePC   *PC
 	pinCond  *Term
@@ -168,7 +171,64 @@ func (e *Engine) externResults(st *State, callee *ssa.Function, args []Value, pr
 }
 
 // finishCall executes a callee frame inline and merges its return points into st.
+var traceCalls = os.Getenv("GOVC_TRACE_CALLS") != ""
+
 func (e *Engine) finishCall(fr *Frame, st *State, nf *Frame, args []Value, site ssa.Instruction) []Value {
+	if traceCalls {
+		t0 := time.Now()
+		rc0, ri0, rt0 := readCalls, readIters, readTop
+		defer func() {
+			if time.Since(t0).Seconds() > 1 {
+				fmt.Fprintf(os.Stderr, "spawn ite=%d copy=%d merge=%d\n", spawnIte, spawnCopy, spawnMerge)
+				fmt.Fprintf(os.Stderr, "reads in %s: top=%d calls=%d iters=%d hits=%d kinds=%v terms=%d\n", fnName(nf.fn), readTop-rt0, readCalls-rc0, readIters-ri0, readHits, readKinds, TS.next)
+			}
+		}()
+		fmt.Fprintf(os.Stderr, "%*senter %s\n", len(e.stack), "", fnName(nf.fn))
+		defer func() {
+			n := 0
+			if m := st.mems[byteMemName]; m != nil {
+				seen := map[*Mem]bool{}
+				var walk func(x *Mem)
+				walk = func(x *Mem) {
+					if x == nil || seen[x] {
+						return
+					}
+					seen[x] = true
+					walk(x.prev)
+					walk(x.a)
+					walk(x.b)
+					walk(x.src)
+				}
+				walk(m)
+				n = len(seen)
+				if os.Getenv("GOVC_TRACE_KINDS") != "" && time.Since(t0).Seconds() > 1 {
+					hist := map[string]int{}
+					for x := range seen {
+						k := fmt.Sprint(x.kind)
+						var r *Term
+						switch x.kind {
+						case MWrite:
+							if len(x.keys) == 2 {
+								r = x.keys[0]
+							}
+						case MCopy, MFill, MHavoc:
+							r = x.region
+						}
+						if r != nil {
+							if r.IsConst() {
+								k += fmt.Sprintf("/const%x", r.val.Uint64()>>60)
+							} else {
+								k += "/" + r.op
+							}
+						}
+						hist[k]++
+					}
+					fmt.Fprintf(os.Stderr, "kinds: %v\n", hist)
+				}
+			}
+			fmt.Fprintf(os.Stderr, "%*sleave %s %.2fs bytemem-nodes=%d\n", len(e.stack), "", fnName(nf.fn), time.Since(t0).Seconds(), n)
+		}()
+	}
 	rets := e.execFunc(nf, args, st.clone())
 	var live []retPoint
 	for _, r := range rets {
@@ -235,7 +295,7 @@ var intrinsicNames = map[string]bool{
 	"vRequires": true, "vEnsures": true, "vAssert": true, "vAssume": true, "vForall": true, "vExists": true,
 	"vSameRegion": true, "vOffset": true, "vModifiesBytes": true, "vModifiesAll": true, "vFresh": true,
 	"vCanary": true, "vAllocs": true, "vUnreachable": true, "vModifiesObj": true, "vNoAlias": true, "vOpaque": true,
-	"vModifiesNothing": true, "vBorrowed": true, "vIsFreshRegion": true, "vModifiesHeap": true, "vStrictLen": true, "vAtEntry": true, "vKeptOrNew": true, "vWireCount": true, "vWireLast": true, "vModifiesWire": true, "vFuel": true, "vModifiesMems": true, "vReveal": true, "vModifiesField": true, "vMapAll": true, "vWireEach": true, "vSpawned": true, "vTrusted": true, "vModifiesElems": true,
+	"vModifiesNothing": true, "vBorrowed": true, "vIsFreshRegion": true, "vModifiesHeap": true, "vStrictLen": true, "vAtEntry": true, "vKeptOrNew": true, "vWireCount": true, "vWireLast": true, "vModifiesWire": true, "vFuel": true, "vModifiesMems": true, "vReveal": true, "vModifiesField": true, "vMapAll": true, "vWireEach": true, "vSpawned": true, "vTrusted": true, "vModifiesElems": true, "vModifiesMap": true, "vFreshMap": true,
 }
 
 // intrinsicName: the name of an intrinsic, with generic instantiations mapped to their origin.
@@ -257,6 +317,7 @@ func (e *Engine) callStatic(fr *Frame, st *State, callee *ssa.Function, args []V
 	// hole of the harness being verified: inline the real body
 	if h := fr.hctx; h != nil && h.target == callee && !h.holeDone {
 		h.holeDone = true
+		h.entrySeq = e.allocSeq
 		switch h.mode {
 		case modeVerify:
 			nf := e.newFrame(callee, fr)
@@ -406,13 +467,16 @@ func (e *Engine) applyContract(fr *Frame, st *State, harness, target *ssa.Functi
 		wireBefore = e.ghostGet(st, "wire.count", IntSort)
 	}
 	vals := e.finishCall(fr, st, nf, args, site)
+	for _, d := range hc.pending {
+		st.assume(d)
+	}
 	// a borrowed buffer handed to a callee whose contract does not say it only borrows it. A
 	// contract whose frame is byte ranges and the wire only (proved when the callee is verified)
 	// cannot store a slice header anywhere that outlives the call.
 	retains := false
 	for _, m := range hc.modifies {
 		switch m.kind {
-		case "obj", "heap", "mems", "all":
+		case "obj", "heap", "mems", "all", "map":
 			retains = true
 		}
 	}
@@ -495,6 +559,23 @@ func (e *Engine) applyModifies(st *State, h *harnessCtx) {
 					h.havocVars = map[string]string{}
 				}
 				h.havocVars[v.name] = name
+			}
+		case "map":
+			// the entries (and the length) of this one map
+			dom, ln, vals := mapMemNames(m.root)
+			for _, name := range append([]string{dom, ln}, vals...) {
+				mm, ok := st.mems[name]
+				if !ok {
+					shape, ok2 := memShapes[name]
+					if !ok2 {
+						continue
+					}
+					mm = NewBaseMem(name, shape.ks, shape.s, "M0."+name)
+				}
+				if writeLog != nil {
+					writeLog(name, m.ref)
+				}
+				st.mems[name] = mm.HavocRegions([]*Term{m.ref})
 			}
 		case "mems":
 			for name, mm := range st.mems {
@@ -597,6 +678,109 @@ func (e *Engine) intrinsic(fr *Frame, st *State, callee *ssa.Function, args []Va
 			} else {
 				h.pinCond = nil // postcondition stated on some paths only: nothing is pinned
 			}
+			if h.holeBlock != nil && h.pinCond == nil {
+				// Stated behind ONE branch on a result (if r == nil { return }): the results are
+				// pinned under a fresh Boolean standing for that branch condition, which is defined
+				// for the call site as a whole.
+				var bc []*Term
+				okb := true
+				for x := st.pc; x != nil && x != h.holePC; x = x.parent {
+					if x.depth < h.holePC.depth {
+						okb = false
+						break
+					}
+					if x.branch {
+						bc = append(bc, x.fact)
+					}
+				}
+				if okb && len(bc) == 1 {
+					g := bc[0]
+					var v, c0 *Term
+					if g.op == "not" && g.args[0].op == "=" {
+						a, b := g.args[0].args[0], g.args[0].args[1]
+						if a.op == "var" && h.resultVars[a.name] && b.IsConst() {
+							v, c0 = a, b
+						} else if b.op == "var" && h.resultVars[b.name] && a.IsConst() {
+							v, c0 = b, a
+						}
+					}
+					if v != nil && v.sort == RegionSort {
+						if _, done := h.subst[v.name]; !done {
+							saved := h.subst
+							local := map[string]*Term{}
+							h.subst = local
+							h.pinCond = True
+							pinned := e.pinResults(h, c)
+							h.pinCond = nil
+							h.subst = saved
+							if pinned && local[v.name] != nil {
+								bv := FreshVar("pinbranch", BoolSort)
+								h.pending = append(h.pending, Eq(bv, g))
+								if h.subst == nil {
+									h.subst = map[string]*Term{}
+								}
+								for name, t := range local {
+									if _, done := h.subst[name]; done {
+										continue
+									}
+									if name == v.name {
+										h.subst[name] = Ite(bv, t, c0)
+									} else {
+										h.subst[name] = Ite(bv, t, Var(name, t.sort))
+									}
+								}
+								// on this path the branch was taken: its own cells see the plain terms
+								for ck, cv := range st.cells {
+									if ck.frame != fr.id {
+										continue
+									}
+									changed := false
+									nt := make([]*Term, len(cv))
+									for j, t := range cv {
+										nt[j] = Subst(t, local)
+										if nt[j] != t {
+											changed = true
+										}
+									}
+									if changed {
+										st.cells[ck] = nt
+									}
+								}
+							}
+						}
+					}
+				}
+				// stated on this path only: the equalities it gives are used for the rest of THIS
+				// path (its own variable cells), never for the results handed back to the caller
+				saved := h.subst
+				local := map[string]*Term{}
+				for k, v := range saved {
+					local[k] = v
+				}
+				h.subst = local
+				h.pinCond = True
+				pinned := e.pinResults(h, c)
+				h.pinCond = nil
+				h.subst = saved
+				if pinned {
+					for ck, cv := range st.cells {
+						if ck.frame != fr.id {
+							continue
+						}
+						changed := false
+						nt := make([]*Term, len(cv))
+						for j, t := range cv {
+							nt[j] = Subst(t, local)
+							if nt[j] != t {
+								changed = true
+							}
+						}
+						if changed {
+							st.cells[ck] = nt
+						}
+					}
+				}
+			}
 			if h.holeBlock != nil && h.pinCond == True {
 				if h.pinCond == True {
 					e.refineHavoc(st, h, c)
@@ -684,6 +868,13 @@ func (e *Engine) intrinsic(fr *Frame, st *State, callee *ssa.Function, args []Va
 	case "vIsFreshRegion":
 		a := args[0].T
 		return []Value{scalar(Eq(regionNibble(a[0]), BVConst(0xF, 4)))}
+	case "vFreshMap":
+		// the map was created by the target (after the hole was reached): it is none of the maps
+		// that existed before the call
+		if h == nil || !h.holeDone {
+			unsup("vFreshMap before the call of the target")
+		}
+		return []Value{scalar(BVUlt(BVConstU(0x80000000+h.entrySeq, RefSort), args[0].T[0]))}
 	case "vNoAlias":
 		a, b := args[0].T, args[1].T
 		// disjoint: different region or non-overlapping [off, off+cap)
@@ -696,6 +887,16 @@ func (e *Engine) intrinsic(fr *Frame, st *State, callee *ssa.Function, args []Va
 		s := args[0].T
 		sl := site.(ssa.CallInstruction).Common().Args[0].Type().Underlying().(*types.Slice)
 		h.modifies = append(h.modifies, modClause{kind: "bytes", elem: sl.Elem(), region: s[0], lo: s[1], hi: BVAdd(s[1], s[2])})
+		return nil
+	case "vModifiesMap":
+		if h == nil {
+			unsup("vModifiesMap outside a harness")
+		}
+		mt := site.(ssa.CallInstruction).Common().Args[0].Type()
+		if _, ok := mt.Underlying().(*types.Map); !ok {
+			unsup("vModifiesMap needs a map")
+		}
+		h.modifies = append(h.modifies, modClause{kind: "map", root: mt, ref: args[0].T[0]})
 		return nil
 	case "vModifiesObj", "vModifiesField":
 		if h == nil {
@@ -1204,6 +1405,33 @@ func (e *Engine) goCall(fr *Frame, st *State, g *ssa.Go) {
 		_ = e.val(fr, a)
 	}
 	st.ghost["spawned"] = BVAdd(e.ghostGet(st, "spawned", IntSort), BVConst(1, IntSort))
+	// The spawned call is checked under one schedule: it runs at once, in the state at the go
+	// statement (panic sites of a function literal's body, the precondition of a callee under
+	// contract). Its effects are discarded: the spawner continues from its own state.
+	callee := g.Call.StaticCallee()
+	_, isLit := g.Call.Value.(*ssa.MakeClosure)
+	if callee != nil && !g.Call.IsInvoke() && (isLit || e.contracts[callee] != nil) && !fr.spec {
+		tmp := st.clone()
+		nObl := len(e.obls)
+		ok := func() (ok bool) {
+			defer func() {
+				if r := recover(); r != nil {
+					if _, isU := r.(unsupported); isU {
+						ok = false
+						return
+					}
+					panic(r)
+				}
+			}()
+			e.call(fr, tmp, &g.Call, g)
+			return true
+		}()
+		if ok {
+			e.assumedExterns["go statement: the spawned call is checked as if it ran at once in the state at the go statement; other interleavings and its effects on the spawner are not modelled"] = true
+			return
+		}
+		e.obls = e.obls[:nObl]
+	}
 	e.assumedExterns["go statement: the spawned goroutine is not executed (sequential semantics)"] = true
 }
 
@@ -1419,6 +1647,17 @@ func (e *Engine) frameObligations(fr *Frame, st *State, entry map[string]*Mem, e
 			}
 		case strings.HasPrefix(name, "map:"):
 			outside = append(outside, BVUle(keys[0], BVConstU(0x80000000+entrySeq, RefSort)))
+			for _, m := range h.modifies {
+				if m.kind != "map" {
+					continue
+				}
+				dom, ln, vals := mapMemNames(m.root)
+				for _, n := range append([]string{dom, ln}, vals...) {
+					if n == name {
+						outside = append(outside, Neq(keys[0], m.ref))
+					}
+				}
+			}
 		}
 		tmp := st.clone()
 		tmp.assume(And(outside...))
